@@ -1,8 +1,11 @@
 package props
 
 import (
+	"bytes"
 	"database/sql"
 	"fmt"
+	"os"
+	"os/exec"
 	"strings"
 	"sync"
 
@@ -160,6 +163,33 @@ func runC20(c *sim.Ctx) {
 		}
 		wg.Wait()
 		c.Probe("parallel-run")
+		// cold start: in THIS process every package-level lazily initialised value has
+		// long been initialised (the solo results above). A fresh child whose very
+		// first parses and reads run concurrently sees the uninitialised state.
+		self, _ := os.Executable()
+		cmd := exec.Command(self, append([]string{"c20cold"}, paths...)...)
+		cmd.Env = append(os.Environ(), "GORACE=halt_on_error=1 exitcode=66")
+		var eb bytes.Buffer
+		cmd.Stderr = &eb
+		err := runWithTimeout(cmd, 120)
+		c.Eval(1)
+		c.Probe("cold-start-child")
+		if err != nil {
+			site := "unknown"
+			for _, l := range strings.Split(eb.String(), "\n") {
+				l = strings.TrimSpace(l)
+				if strings.HasPrefix(l, "github.com/alicebob/sqlittle") {
+					site = strings.TrimPrefix(strings.SplitN(l, "(", 2)[0], "github.com/alicebob/sqlittle")
+					break
+				}
+			}
+			kind := "cold-start-failure"
+			if strings.Contains(eb.String(), "DATA RACE") {
+				kind = "data-race"
+			}
+			c.Fail(kind, kind+":cold-start:"+strings.Trim(site, "/."), fmt.Sprintf("a fresh process whose first operations run concurrently on separate handles: %v: %s", err, firstLine(eb.String())),
+				map[string]interface{}{"stderr": trimStack(eb.String())})
+		}
 	} else {
 		// lock-step: every goroutine parks at each pager event and callback
 		type gstate struct {
@@ -244,10 +274,64 @@ func runC20(c *sim.Ctx) {
 	}
 }
 
+// c20cold <paths...>: the first thing this process does is to use separate
+// handles from several goroutines at once; results must be identical across
+// goroutines that do the same thing.
+func c20cold(args []string) int {
+	if len(args) == 0 {
+		return 3
+	}
+	const G = 8
+	results := make([]string, G)
+	var wg sync.WaitGroup
+	start := make(chan struct{})
+	for g := 0; g < G; g++ {
+		wg.Add(1)
+		go func(g int) {
+			defer wg.Done()
+			<-start
+			path := args[g%len(args)]
+			d, err := sqlittle.Open(path)
+			if err != nil {
+				results[g] = "open:" + err.Error()
+				return
+			}
+			defer d.Close()
+			low := d.VerifLow()
+			out := ""
+			if low.RLock() == nil {
+				tabs, _ := low.Tables()
+				low.RUnlock()
+				for _, t := range tabs {
+					if strings.HasPrefix(t, "sqlite_") {
+						continue
+					}
+					cols, err := d.Columns(t)
+					out += fmt.Sprintf("%s:%v:%v;", t, cols, err)
+					n := 0
+					err = d.Select(t, func(r sqlittle.Row) { n++ }, cols...)
+					out += fmt.Sprintf("%d:%v;", n, err)
+				}
+			}
+			results[g] = out
+		}(g)
+	}
+	close(start)
+	wg.Wait()
+	for g := 0; g < G; g++ {
+		if results[g] != results[g%len(args)] {
+			fmt.Fprintf(os.Stderr, "cold start: goroutine %d got a different result than goroutine %d on the same file:\n  %s\n  %s\n", g, g%len(args), short(results[g], 400), short(results[g%len(args)], 400))
+			return 5
+		}
+	}
+	return 0
+}
+
 func init() {
+	extraCmd("c20cold", c20cold)
 	sim.Register(&sim.Prop{
 		ID: "C20", Engine: "E-WORLD+E-RACE", Level: "exploration", Fn: runC20, NewEnv: NewEnv,
-		Runs: map[string]int{"quick": 800, "thorough": 12000},
+		Runs: map[string]int{"quick": 480, "thorough": 12000},
 		Rule: "per run: 1-2 databases from the workload generator; 2-6 goroutines, each opening its own handles on one of the files and running 1-4 operations drawn from the whole read family (plus sql.Parse and db.Equals, which touch package-level state); two runs in three are lock-step: every goroutine parks at every pager event and callback invocation and the seeded scheduler releases one goroutine at a time in bursts of 1-8 events; one run in three is free-running (real parallelism, 3 repetitions, plus a database/sql pool with 4 concurrent queries); every operation's result (rows, names, schema, error) must equal its result when run alone; the whole check is built with -race: a data race report terminates the worker and is reported as a violation; evaluations = operations compared; distinct = distinct event logs",
 		Real: append([]string{"unix file pager on real files, page cache mutex, package-level collation table and parser tables, database/sql pool; Go race detector"}, realAll...),
 		Stub: []string{"none"},
